@@ -149,13 +149,14 @@ class Explorer:
                 return [(tg, None, None)]
             out = []
             adt = rv.get("adt")
+            cur_d = deep(st, cur)
             for n, tg in m.items():
-                out.append((tg, (key, n, adt, cur), ("variant", key, n)))
+                out.append((tg, (key, n, adt, cur), ("variant", key, n, cur_d)))
             if rest or not m:
                 for n in rest:
-                    out.append((otherwise, (key, n, adt, cur), ("variant", key, n)))
+                    out.append((otherwise, (key, n, adt, cur), ("variant", key, n, cur_d)))
                 if not rest:
-                    out.append((otherwise, None, ("variant", key, "?")))
+                    out.append((otherwise, None, ("variant", key, "?", cur_d)))
             return out
         c = const_of(v)
         if c is not None:
@@ -184,6 +185,7 @@ class Explorer:
         out = []
         vals = [x for x, _ in t["targets"]]
         is_bool = t.get("dty") == "bool"
+        v = deep(st, v)
         for val, tg in t["targets"]:
             out.append((tg, ("assume", k, val), ("scalar", v, bool(val) if is_bool else val)))
         if is_bool and vals in ([0], [1]):
@@ -304,3 +306,43 @@ class Explorer:
 
 def explore(f, start=0, state=None, **kw):
     return Explorer(f, **kw).run(start, state)
+
+
+def deep(st, v, depth=0, seen=None):
+    """v with every reference replaced by ('ref*', <value it points to>) (bounded), so that a rule can ask what a borrowed
+    argument was computed from"""
+    if depth > 12 or not isinstance(v, tuple):
+        return v
+    if v and v[0] == "ref" and len(v) == 2 and isinstance(v[1], tuple):
+        seen = seen or set()
+        if v[1] in seen:
+            return v
+        try:
+            inner = st.read_key(v[1])
+        except Exception:
+            return v
+        return ("ref*", deep(st, inner, depth + 1, seen | {v[1]}))
+    out = []
+    for x in v:
+        if isinstance(x, tuple):
+            out.append(deep(st, x, depth + 1, seen))
+        elif isinstance(x, list):
+            out.append([deep(st, y, depth + 1, seen) if isinstance(y, tuple) else y for y in x])
+        elif isinstance(x, dict):
+            out.append({k: deep(st, y, depth + 1, seen) if isinstance(y, tuple) else y for k, y in x.items()})
+        else:
+            out.append(x)
+    return tuple(out)
+
+
+def str_consts(v):
+    """string literals occurring in a term"""
+    out = []
+    for x in walk_terms(v):
+        if x and x[0] == "const" and isinstance(x[1], str):
+            out.append(x[1])
+    return out
+
+
+def calls_in(v):
+    return [x for x in walk_terms(v) if x and x[0] == "call"]
